@@ -680,3 +680,174 @@ Proof.
     unfold recv_a. apply recv_of_count.
   - apply mset_eqb_iff. intros [[[s t] p] f]. rewrite Hc. unfold recv_a. apply recv_of_count.
 Qed.
+
+(* ------------------------------------------------------------------------------------------ *)
+(* the table changes between the messages of a stream: interleaved scripts *)
+
+Lemma fops_app e1 e2 : fops (e1 ++ e2) = fops e1 ++ fops e2.
+Proof. unfold fops. apply flat_map_app. Qed.
+
+Lemma fops_cons_op o r : fops (FOp o :: r) = o :: fops r.
+Proof. reflexivity. Qed.
+
+Lemma fops_cons_msg m r : fops (FMsg m :: r) = fops r.
+Proof. reflexivity. Qed.
+
+Lemma fops_map_op ops : fops (map FOp ops) = ops.
+Proof. induction ops as [|o r IH]; [reflexivity|]. cbn [map]. rewrite fops_cons_op, IH. reflexivity. Qed.
+
+Lemma recvi_of_app {X : Type} (stepX : X -> op -> X) subsX e1 : forall st e2 c,
+  recvi_of stepX subsX st (e1 ++ e2) c =
+  recvi_of stepX subsX st e1 c ++ recvi_of stepX subsX (fold_left stepX (fops e1) st) e2 c.
+Proof.
+  induction e1 as [|e r IH]; intros st e2 c; [reflexivity|].
+  destruct e as [o|m]; cbn [app recvi_of].
+  - rewrite IH, fops_cons_op. reflexivity.
+  - rewrite IH, fops_cons_msg, app_assoc. reflexivity.
+Qed.
+
+Lemma recvi_c_app cs e1 e2 c :
+  recvi_c cs (e1 ++ e2) c = recvi_c cs e1 c ++ recvi_c (run_c unwrap cs (fops e1)) e2 c.
+Proof. unfold recvi_c, run_c. apply recvi_of_app. Qed.
+
+Lemma recvi_a_app st e1 e2 c :
+  recvi_a st (e1 ++ e2) c = recvi_a st e1 c ++ recvi_a (run_a st (fops e1)) e2 c.
+Proof. unfold recvi_a, run_a. apply recvi_of_app. Qed.
+
+(* refinement, from any pair of related states *)
+Lemma recvi_refine evs : forall cs st c,
+  Inv cs st -> wf_from (snd cs) (fops evs) = true -> recvi_c cs evs c = recvi_a st evs c.
+Proof.
+  induction evs as [|e r IH]; intros cs st c HI Hwf; [reflexivity|].
+  destruct e as [o|m].
+  - rewrite fops_cons_op, wf_from_cons in Hwf. apply andb_true_iff in Hwf as [Ho Hr].
+    unfold recvi_c, recvi_a. cbn [recvi_of]. apply IH.
+    + apply step_inv; assumption.
+    + rewrite snd_step_c. exact Hr.
+  - rewrite fops_cons_msg in Hwf.
+    unfold recvi_c, recvi_a. cbn [recvi_of].
+    rewrite (inv_subscribers cs st _ _ HI). f_equal. apply IH; assumption.
+Qed.
+
+Lemma fani_refinement evs c :
+  wf_ops (fops evs) = true -> recvi_c c_init evs c = recvi_a a_init evs c.
+Proof. intro Hwf. apply recvi_refine; [apply Inv_init | exact Hwf]. Qed.
+
+Lemma fani_judge_model evs chans :
+  wf_ops (fops evs) = true ->
+  judge_fani evs chans (map (recvi_c c_init evs) chans) = true.
+Proof.
+  intro Hwf. unfold judge_fani, fan_ok. apply all2_Forall2.
+  induction chans as [|c r IH]; cbn [map]; constructor; [|exact IH].
+  rewrite (fani_refinement evs c Hwf). apply mset_eqb_refl.
+Qed.
+
+Lemma fani_judge_sound evs chans impl :
+  judge_fani evs chans impl = true <->
+  Forall2 (fun c got => forall x, count_m x got = count_m x (recvi_a a_init evs c)) chans impl.
+Proof.
+  unfold judge_fani, fan_ok. rewrite all2_Forall2.
+  split; intro H; (eapply Forall2_weaken; [|exact H]); cbn beta; intros c got Hc.
+  - intro x. symmetry. apply mset_eqb_iff. exact Hc.
+  - apply mset_eqb_iff. intro x. symmetry. apply Hc.
+Qed.
+
+(* what the specification's receipts are, message by message: a script without messages hands out
+   nothing, and every single message contributes - independently of everything before and after
+   it - one copy per subscription the channel holds on the message's (session, type) at the moment
+   of the message *)
+Lemma fani_no_messages evs : forall st c,
+  (forall m, ~ In (FMsg m) evs) -> recvi_a st evs c = [].
+Proof.
+  induction evs as [|e r IH]; intros st c H; [reflexivity|].
+  destruct e as [o|m].
+  - unfold recvi_a. cbn [recvi_of]. apply IH. intros m Hin. apply (H m). right. exact Hin.
+  - exfalso. apply (H m). left. reflexivity.
+Qed.
+
+Lemma recvi_a_msg st m r c :
+  recvi_a st (FMsg m :: r) c =
+  repeat m (copies c (spec_subscribers (m_sess m) (m_type m) (fst st))) ++ recvi_a st r c.
+Proof. reflexivity. Qed.
+
+Lemma fani_each_message pre m post c x :
+  count_m x (recvi_a a_init (pre ++ FMsg m :: post) c) =
+  (count_m x (recvi_a a_init (pre ++ post) c) +
+   (if msg_eqb x m
+    then copies c (spec_subscribers (m_sess m) (m_type m) (fst (run_a a_init (fops pre))))
+    else O))%nat.
+Proof.
+  rewrite !recvi_a_app, recvi_a_msg, !count_m_app, count_m_repeat. lia.
+Qed.
+
+(* the fixed-table burst is the special case "all table operations first" *)
+Lemma recvi_a_msgs msgs : forall st c,
+  recvi_a st (map FMsg msgs) c = recv_a (fst st) msgs c.
+Proof.
+  induction msgs as [|m r IH]; intros st c; [reflexivity|].
+  cbn [map]. rewrite recvi_a_msg, IH. reflexivity.
+Qed.
+
+Lemma fani_fixed_table ops msgs c :
+  recvi_a a_init (map FOp ops ++ map FMsg msgs) c = recv_a (fst (run_a a_init ops)) msgs c.
+Proof.
+  rewrite recvi_a_app, fops_map_op, recvi_a_msgs.
+  rewrite fani_no_messages; [reflexivity|].
+  intros m Hin. apply in_map_iff in Hin as [o [Ho _]]. discriminate.
+Qed.
+
+(* nothing further after cancellation, in the model of the code: a channel subscribed by one
+   subscription only has, at the end of any script, received exactly what it had received when
+   that subscription was cancelled *)
+Lemma copies_not_in c l : ~ In c l -> copies c l = O.
+Proof.
+  unfold copies. induction l as [|y l IH]; intro H; [reflexivity|].
+  cbn [filter]. destruct (N.eqb c y) eqn:E.
+  - apply N.eqb_eq in E. subst y. exfalso. apply H. left. reflexivity.
+  - apply IH. intro Hin. apply H. right. exact Hin.
+Qed.
+
+Lemma recvi_c_nil post : forall base c,
+  (forall p1 p2, post = p1 ++ p2 ->
+     forall s t, ~ In c (subscribers s t (fst (run_c unwrap c_init (base ++ fops p1))))) ->
+  recvi_c (run_c unwrap c_init base) post c = [].
+Proof.
+  induction post as [|e r IH]; intros base c H; [reflexivity|].
+  destruct e as [o|m]; unfold recvi_c; cbn [recvi_of].
+  - change (step_c unwrap (run_c unwrap c_init base) o) with (run_c unwrap (run_c unwrap c_init base) [o]).
+    rewrite <- run_c_app. apply IH.
+    intros p1 p2 Hr s t. rewrite <- app_assoc. cbn [app].
+    apply (H (FOp o :: p1) p2). rewrite Hr. reflexivity.
+  - rewrite copies_not_in.
+    + cbn [repeat app]. apply IH. intros p1 p2 Hr s t.
+      apply (H (FMsg m :: p1) p2). rewrite Hr. reflexivity.
+    + pose proof (H [] (FMsg m :: r) eq_refl (m_sess m) (m_type m)) as H0.
+      cbn [fops flat_map] in H0. rewrite app_nil_r in H0. exact H0.
+Qed.
+
+Lemma fani_cancelled_nothing pre k post c :
+  wf_ops (fops (pre ++ FOp (Unsub k) :: post)) = true -> (k < nsubs (fops pre))%nat ->
+  (forall j s' t', nth_sub (fops (pre ++ FOp (Unsub k) :: post)) j = Some (s', t', c) -> j = k) ->
+  recvi_c c_init (pre ++ FOp (Unsub k) :: post) c = recvi_c c_init pre c.
+Proof.
+  intros Hwf Hk Honly.
+  change (pre ++ FOp (Unsub k) :: post) with (pre ++ [FOp (Unsub k)] ++ post).
+  rewrite app_assoc, recvi_c_app, recvi_c_app.
+  replace (recvi_c (run_c unwrap c_init (fops pre)) [FOp (Unsub k)] c) with (@nil msg) by reflexivity.
+  rewrite fops_app. change (fops [FOp (Unsub k)]) with [Unsub k].
+  rewrite recvi_c_nil; [rewrite !app_nil_r; reflexivity|].
+  intros p1 p2 Hp s t.
+  rewrite fops_app, fops_cons_op, Hp, fops_app in Hwf, Honly.
+  rewrite <- app_assoc. cbn [app].
+  apply (cancelled_gets_nothing (fops pre) k (fops p1) c s t).
+  - replace (fops pre ++ Unsub k :: fops p1 ++ fops p2)
+      with ((fops pre ++ Unsub k :: fops p1) ++ fops p2) in Hwf
+      by (rewrite <- app_assoc; reflexivity).
+    exact (wf_from_app _ _ _ Hwf).
+  - exact Hk.
+  - intros j s' t' Hn. apply (Honly j s' t').
+    replace (fops pre ++ Unsub k :: fops p1 ++ fops p2)
+      with ((fops pre ++ Unsub k :: fops p1) ++ fops p2)
+      by (rewrite <- app_assoc; reflexivity).
+    apply nth_sub_app_l. exact Hn.
+Qed.
